@@ -33,11 +33,12 @@ type c05Lane struct {
 
 type c05Scen struct {
 	CfgExpiryS int       `json:"cfg_session_expiry_s"`
+	Redis      bool      `json:"redis,omitempty"` // sessions, subscriptions, queues on the redis backend (harness RESP server)
 	Lanes      []c05Lane `json:"lanes"`
 }
 
 func genC05(t *rapid.T) c05Scen {
-	s := c05Scen{CfgExpiryS: rapid.SampledFrom([]int{1, 2, 3600}).Draw(t, "cfg")}
+	s := c05Scen{CfgExpiryS: rapid.SampledFrom([]int{1, 2, 3600}).Draw(t, "cfg"), Redis: rapid.IntRange(0, 2).Draw(t, "backend") == 0}
 	n := rapid.IntRange(6, 10).Draw(t, "nlanes")
 	for i := 0; i < n; i++ {
 		l := c05Lane{V: rapid.SampledFrom([]int{4, 5, 5}).Draw(t, "v"), Clean1: rapid.IntRange(0, 3).Draw(t, "clean1") == 0,
@@ -66,6 +67,15 @@ func minInt(a, b int) int {
 func runC05(s c05Scen, c *ev.Case) *ev.Violation {
 	cfg := fixture.BaseConfig()
 	cfg.MQTT.SessionExpiry = time.Duration(s.CfgExpiryS) * time.Second
+	if s.Redis {
+		rs, cleanup, e := fixture.StartRedis()
+		if e != nil {
+			return harnessErr("miniredis: %v", e)
+		}
+		defer cleanup()
+		cfg = fixture.WithRedis(cfg, rs.Addr())
+		c.Label("backend_redis")
+	}
 	b, err := fixture.Start(fixture.Opts{Config: cfg})
 	if err != nil {
 		return harnessErr("start broker: %v", err)
